@@ -104,7 +104,7 @@ pub fn set_mathml(mathml_str: String) -> Result<String> {
     }
 
     NAVIGATION_STATE.with(|nav_stack| {
-        nav_stack.borrow_mut().reset();
+        nav_stack.borrow_mut().reset_for_new_expression();
     });
 
     // We need the main definitions files to be read in so canonicalize can work.
